@@ -16,6 +16,8 @@ pub mod c14;
 pub mod c15;
 pub mod c16;
 pub mod c17;
+pub mod c18;
+pub mod c19;
 pub mod c20;
 pub mod c21;
 pub mod c23;
@@ -44,6 +46,8 @@ pub fn run(ctx: &Ctx, id: &str) -> bool {
         "C15" => c15::run(ctx),
         "C16" => c16::run(ctx),
         "C17" => c17::run(ctx),
+        "C18" => c18::run(ctx),
+        "C19" => c19::run(ctx),
         "C20" => c20::run(ctx),
         "C21" => c21::run(ctx),
         "C23" => c23::run_c23(ctx),
